@@ -17,7 +17,8 @@ META = {
     'bounds': {
         'quick': 'fragments: 8 skeletons <= 6 atoms with every atom identifier a solver variable over 3 values and bond orders '
                  'over {1,2}, radii 1..4, cap 0..3; folding: every signed 64-bit hash as a bit-vector, length 2^k for k = 1..12 '
-                 '(realised), 1..4 active bits; numbering independence: every random-order spelling of 12 seeds',
+                 '(realised), 1..4 active bits; numbering independence (hash sets, folded fingerprints, fragment-SMILES dictionaries): every random-order '
+                 'spelling of 12 seeds',
         'thorough': '14 skeletons, 30 seeds, k up to 16',
     },
     'outside_claim': ['hash collisions of CPython tuple hashing', 'CGR fingerprints'],
@@ -171,6 +172,9 @@ def h_numbering(V, smi):
     fr = src._fragments(lo, hi)
     V.prove(sorted(len(v) for v in fr.values()) == sorted(len(v) for v in back._fragments(lo, hi).values()),
             'fragment multiplicities independent of numbering', {'text': text})
+    V.prove(back.linear_hash_smiles(lo, hi) == src.linear_hash_smiles(lo, hi) and
+            back.linear_smiles_hash(lo, hi) == src.linear_smiles_hash(lo, hi),
+            'fragment SMILES of the hash dictionaries independent of numbering', {'text': text})
     V.observe('text', text)
 
 
